@@ -90,10 +90,9 @@ def receiver_field(argtree):
     for _ in range(12):
         t = peel(t)
         if t[0] == 'field':
-            base = peel(t[1])
-            if base[0] == 'arg':
+            if not t[2].isdigit():
                 return t[2]
-            t = base
+            t = t[1]
             continue
         if t[0] == 'index':
             t = t[1]; continue
